@@ -336,10 +336,13 @@ pub fn run() -> i32 {
     r.guard(td.rewritten > 1_000, "deromanisers: more than 1000 encoded words compared");
     // romanisers act inside one syllable (no `$` alias here): a word prints as its syllables print on their own, joined by the default marks.
     // Tone conditions are the interesting inputs: what one syllable's alias does to its tone digits must not reach the next syllable
-    let syl_aliases: Vec<Vec<&str>> = vec![vec!["a:[tone: 5] > X"], vec!["a:[tone: 5]m > X"], vec!["ma:[tone: 51] > Y"], vec!["V:[tone: 5] > +@{acute}"], vec!["[+nasal, tone: 5] > N"], vec!["a:[tone: 5] > X", "m > M"], vec!["m > M", "a:[tone: 51, +stress] > Z"], vec!["a:[+long, tone: 5] > L"], vec!["V:[+stress] > +@{acute}", "a:[tone: 3] > *"]];
+    let syl_aliases: Vec<Vec<&str>> = vec![vec!["a:[tone: 5] > X"], vec!["a:[tone: 5]m > X"], vec!["ma:[tone: 51] > Y"], vec!["V:[tone: 5] > +@{acute}"], vec!["[+nasal, tone: 5] > N"], vec!["a:[tone: 5] > X", "m > M"], vec!["m > M", "a:[tone: 51, +stress] > Z"], vec!["a:[+long, tone: 5] > L"], vec!["V:[+stress] > +@{acute}", "a:[tone: 3] > *"],
+        // `+` on segments that are not bare letters (tʰ, ã): the base letter printed for a matched occurrence must not replace the spelling of an unmatched one
+        vec!["C:[+stress] > +x"], vec!["[+syll, +stress] > +@{acute}"], vec!["[+sg, tone: 5] > +H", "m > M"]];
     let (sm, sa) = (seg("m"), seg("a"));
     let mut sylls: Vec<CSyl> = vec![];
-    for segs in [vec![sm, sa], vec![sa], vec![sm, sa, sm], vec![sm, sa, sa]] { for tone in [0u16, 5, 51, 3] { for stress in [0u8, 1] { sylls.push(CSyl { segs: segs.clone(), stress, tone }); } } }
+    let (sth, snas) = (seg("tʰ"), seg("a\u{303}"));
+    for segs in [vec![sm, sa], vec![sa], vec![sm, sa, sm], vec![sm, sa, sa], vec![sth, sa], vec![sth, snas]] { for tone in [0u16, 5, 51, 3] { for stress in [0u8, 1] { sylls.push(CSyl { segs: segs.clone(), stress, tone }); } } }
     let mut syl_words: Vec<CW> = vec![];
     for a in &sylls { for b in &sylls { syl_words.push(vec![a.clone(), b.clone()]); } }
     for (k, a) in sylls.iter().enumerate() { for (l, b) in sylls.iter().enumerate() { for c in sylls.iter().skip((k + l) % 5).step_by(5) { syl_words.push(vec![a.clone(), b.clone(), c.clone()]); } } }
